@@ -62,6 +62,8 @@ class SliceLin:
     def premises(self, x):
         H = Lin({"H": 1})
         f = [fm.ge0(H)]
+        if self.inp is not None:
+            f += [fm.ge0(self.ln(self.inp)), fm.le(self.ln(self.inp), H)]
         seen = set()
         terms = [c[1] for c in x.conds]
         for e in x.effects:
@@ -138,6 +140,10 @@ class SliceLin:
             f += fm.eq(lx, self.L(m)) if X[2] == 0 else fm.eq(lx, self.ln(b) - self.L(m))
             f += [fm.ge0(self.ln(b)), fm.le(self.ln(b), H)]
             f += self.slice_facts(b, x, depth + 1)
+        if X[0] == "tproj" and X[2] == 1 and X[1][0] == "payload" and X[1][2] == SOME and X[1][1][0] == "call" and X[1][1][1].endswith("::split_first") and len(X[1][1][2]) == 1:
+            b = X[1][1][2][0]
+            f += fm.eq(lx + Lin({}, 1), self.ln(b)) + [fm.le(self.ln(b), H)]
+            f += self.slice_facts(b, x, depth + 1)
         if X[0] == "index":
             f += [fm.ge0(self.ln(X[1])), fm.le(self.ln(X[1]), H)]
             f += self.slice_facts(X[1], x, depth + 1)
@@ -198,6 +204,8 @@ class SliceLin:
         if e[0] == "index":
             k, a, b = rng_parts(e[2])
             n = self.ln(e[1])
+            if k is None and e[2][0] not in ("struct",) and not (e[2][0] == "call" and "Range" in e[2][1]):
+                return [fm.lt(self.L(e[2]), n)]      # s[i]: i < len
             if k == "RangeFrom":
                 return [fm.le(self.L(a), n)]
             if k == "RangeTo":
@@ -220,11 +228,64 @@ class SliceLin:
             return [fm.le(self.L(e[2][1]), self.ln(e[2][0]))]
         return None
 
+    def loop_invariants(self, exits):
+        """Houdini over the candidates `v <= len(input)` for every loop-carried local v of every loop of the function:
+        kept when established at every entry of the loop and preserved on every back-edge (given the kept candidates at
+        the head). -> {loop site: [constraint, ...]}"""
+        if getattr(self, "_inv", None) is not None:
+            return self._inv
+        self._inv = {}
+        if self.inp is None:
+            return self._inv
+        cand = {}
+        for site, info in self.ps.loops.items():
+            for lid, name in info["vars"].items():
+                cand[(site, lid)] = ("loopvar", lid, name, site)
+        n = self.ln(self.inp)
+        changed = True
+        rounds = 0
+        while changed and rounds < 10:
+            changed = False
+            rounds += 1
+            cur = {}
+            for (site, lid), v in cand.items():
+                cur.setdefault(site, []).append(fm.le(self.L(v), n))
+            self._inv = cur
+            for (site, lid), v in list(cand.items()):
+                info = self.ps.loops[site]
+                ok = bool(info["entry"])
+                for st in info["entry"]:
+                    t = st.env.get(lid)
+                    fake = pathsum.Exit("entry", st, None)
+                    if t is None or not fm.entails(self.facts(fake), fm.le(self.L(t), n)):
+                        ok = False
+                for x in exits:
+                    if x.kind == "backedge" and x.extra == site:
+                        t = x.env.get(lid)
+                        if t is None or not fm.entails(self.facts(x), fm.le(self.L(t), n)):
+                            ok = False
+                if not ok:
+                    del cand[(site, lid)]
+                    changed = True
+        cur = {}
+        for (site, lid), v in cand.items():
+            cur.setdefault(site, []).append(fm.le(self.L(v), n))
+        self._inv = cur
+        return self._inv
+
+    def facts(self, x):
+        f = self.premises(x) + self.cond_facts(x)
+        inv = getattr(self, "_inv", None) or {}
+        for e in x.effects:
+            if e[0] == "loop_head":
+                f += inv.get(e[1], [])
+        return f
+
     def prove(self, x, e):
         g = self.goals(e)
         if g is None:
             return False
-        f = self.premises(x) + self.cond_facts(x)
+        f = self.facts(x)
         return all(fm.entails(f, q) for q in g)
 
 
